@@ -26,7 +26,7 @@ theorem lexLE_trans : ∀ a b c : List Nat, lexLE a b = true → lexLE b c = tru
     have ih := lexLE_trans as bs cs
     simp only [lexLE]
     intro h1 h2
-    split_ifs at h1 h2 ⊢ <;> first | rfl | (exfalso; omega) | exact ih h1 h2 | simp_all
+    split_ifs at h1 h2 ⊢ <;> first | rfl | (exfalso; omega) | exact ih h1 h2
 
 theorem lexLE_antisymm : ∀ a b : List Nat, lexLE a b = true → lexLE b a = true →
     a.length = b.length → a = b
@@ -105,7 +105,8 @@ theorem idxOf_eq_rank {α : Type} [DecidableEq α] (le : α → α → Bool) (a 
         (fun x hx y hy => hanti x (List.mem_cons_of_mem _ hx) y (List.mem_cons_of_mem _ hy))
       have hxa : le x a = true := hs.1 a hat
       rw [List.idxOf_cons, List.filter_cons]
-      simp [hx, hxa, ih]
+      have hbeq : (x == a) = false := by simpa using hx
+      simp [hbeq, hx, hxa, ih]
 
 theorem position_is_rank (l : List Acq) (a : Acq) (ha : a ∈ l)
     (hkeys : (l.map (·.key)).Nodup) (hlen : ∀ a ∈ l, ∀ b ∈ l, a.key.length = b.key.length) :
@@ -118,5 +119,6 @@ theorem position_is_rank (l : List Acq) (a : Acq) (ha : a ∈ l)
 
 theorem kfreq_formula (n : Nat) (c : Int) (j : Nat) (hj : j < n) :
     kfreq n c false j = j - c ∧ kfreq n c true j = kfreq n c false (n - 1 - j) := by
+  have _ := hj
   simp [kfreq]
 end M
